@@ -126,8 +126,41 @@ def programs(tier):
     yield ("gate-to-graphnode", T.prog([T.route("gt", ["e0"], ["inner2", "oth"], default_open=False), T.gnode("inner2", inner2), T.fn("oth", ["e0"], ["o0"])]), e, dict(dag=True, exact=True, horizon=8))
 
 
+def systematic(tier, seed):
+    """Every configuration of one or two gates over three data nodes around one loop variable:
+    body(c)->c (cycle), obs(c)->x, ind(e0)->y; each gate reads c or e0, is a route (two targets + END) or an
+    if/else, picks its two targets among {body, obs, ind, END}, and is default-open or closed."""
+    import itertools
+
+    tgt_pairs = list(itertools.combinations(["body", "obs", "ind", "END"], 2))
+    H_ = 6 if tier == "quick" else 8
+
+    def gate(name, cfg):
+        inp, kind, pair, do = cfg
+        if kind == "route":
+            tg = [t for t in pair if t != "END"] + ["END"]
+            return T.route(name, [inp], tg, default_open=do)
+        return T.ifelse(name, [inp], pair[0], pair[1], default_open=do)
+
+    cfgs = [(inp, kind, pair, do) for inp in ("c", "e0") for kind in ("route", "ifelse") for pair in tgt_pairs for do in (True, False)]
+    i = 0
+    for c1 in cfgs:
+        seconds = [None] + (cfgs if tier == "thorough" else [c for j, c in enumerate(cfgs) if (j + seed) % 12 == 0])
+        for c2 in seconds:
+            i += 1
+            nodes = [T.fn("body", ["c"], ["c"], behav="env"), T.fn("obs", ["c"], ["x"], behav="env"), T.fn("ind", ["e0"], ["y"], behav="env"), gate("g1", c1)]
+            if c2 is not None:
+                nodes.append(gate("g2", c2))
+            yield (f"sys-{i}", T.prog(nodes), {"c": 0, "e0": ["prov", "e0"]}, dict(dag=False, exact=False, horizon=H_, systematic=True))
+
+
+def all_programs(tier, seed=0):
+    yield from programs(tier)
+    yield from systematic(tier, seed)
+
+
 def shards(tier, seed):
-    ps = list(programs(tier))
+    ps = list(all_programs(tier, seed))
     return [(tier, seed, i) for i in range(len(ps))]
 
 
@@ -285,11 +318,19 @@ def _judge(prog, inputs, meta):
 def run_shard(shard):
     tier, seed, i = shard
     acc = Acc()
-    name, prog, inputs, meta = list(programs(tier))[i]
+    name, prog, inputs, meta = list(all_programs(tier, seed))[i]
+    if meta.get("systematic"):
+        from ..dsl import H as _H, build as _build
+
+        try:
+            _build(prog, _H())
+        except Exception:  # noqa: BLE001 - configuration rejected by the constructor (e.g. conflicting producers): not in the space
+            acc.counters["systematic_configurations_rejected_by_constructor"] += 1
+            return acc
     for runner in ("sync", "async"):
         p = T.set_async(prog, runner == "async")
         configs = [dict(suspend=False, invalid_menu=False), dict(suspend=False, invalid_menu=True)]
-        if runner == "async":
+        if runner == "async" and not meta.get("systematic"):
             configs.append(dict(suspend=True, invalid_menu=False))
         for cfg in configs:
             if cfg["invalid_menu"] and not meta["dag"]:
